@@ -51,7 +51,7 @@ CLAIMS = {
    note="Fairness and ClearKey under contention are outside the property. Map.LoadOrStore's atomicity is covered by necessary protocol conditions, not a linearizability proof."),
  "C08": dict(cat="other", sec="4 C08",
    technique="static address-arithmetic analysis: polynomial normal forms of every index/span on the backing slice, bounds from path guards/loop headers/call-site obligations (go/ssa path summaries)",
-   text="Every index and span applied to Array2D's backing slice is split as Q1*width + Q0 and shown, on every path reaching it, to satisfy 0<=Q1<height and 0<=Q0<width (spans: ordered, within one row), with bounds taken from the path's own guards, loop headers and, for helpers and internally called methods, obligations at each call site. By the stated lemma this is exactly injectivity of the cell mapping for every shape; constructors (incl. New2DFromJagged), Fill's rectangle, Clone's detachment, the exact windows of Row/RowSpan, complete and exact coordinate guards on every returning/panicking path, and String's one-print-per-cell loop nest are decided as tables.",
+   text="Every index and span applied to Array2D's backing slice is split as Q1*width + Q0 and shown, on every path reaching it, to satisfy 0<=Q1<height and 0<=Q0<width (spans: ordered, within one row), with bounds taken from the path's own guards, loop headers and, for helpers and internally called methods, obligations at each call site. By the stated lemma this is exactly injectivity of the cell mapping for every shape; constructors (incl. New2DFromJagged), Fill's rectangle, Clone's detachment, the exact windows of Row/RowSpan, complete and exact coordinate guards on every returning/panicking path, and String's one-print-per-cell loop nest are decided as tables; slices.Fill, through which the fill operations write, is re-checked here with C12's rule.",
    note="Not decided: String's punctuation; copy's truncation semantics (language). The arithmetic lemma (x + y*W bijective on [0,W)x[0,H)) is stated, not machine-checked."),
  "C07": dict(cat="other", sec="4 C07",
    technique="static ownership/encapsulation, sentinel-flow and path-table analysis over go/ssa (closures resolved through their bindings)",
@@ -63,7 +63,7 @@ CLAIMS = {
    note="Not decided: the induction itself over all histories (each step is decided, under the tree-shape assumption that distinct access paths denote distinct nodes and a callee changes only the subtree it was handed); comparators inconsistent with ==."),
  "C02": dict(cat="other", sec="4 C02",
    technique="static typestate/path-table rules over go/ssa: height-refresh-before-escape, rebalance-on-return, height convention by constant propagation, rotation decision table, exact rotation shape by abstract execution (shape.go)",
-   text="Decides that avl/avl.go is the textbook AVL update: after every child store the node's cached height is recomputed before the node flows upwards, every modified subtree root is returned through rebalance, the empty-subtree height is one less than a leaf's, balance() leans exactly at a difference above one, rebalance maps (outer lean, strict sign of the heavy child's lean) to the four rotations which are recognised by structure and whose result shape is computed symbolically ((L n RL) r RR for a left rotation), and rotations re-height the demoted node before the promoted one.",
+   text="Decides that avl/avl.go is the textbook AVL update: after every child store the node's cached height is recomputed before the node flows upwards, every modified subtree root is returned through rebalance, the empty-subtree height is one less than a leaf's, balance() leans exactly at a difference above one, rebalance maps (outer lean, strict sign of the heavy child's lean) to the four rotations which are recognised by structure and whose result shape is computed symbolically ((L n RL) r RR for a left rotation), typ.Max (used by calcHeight) is re-checked here with C20's rule, and rotations re-height the demoted node before the promoted one.",
    note="Not decided: the induction from these rules to |lean| <= 1 everywhere and the 1.44 log2 depth bound (needs a height/shape abstract domain with an inductive proof; out of reach)."),
  "C03": dict(cat="other", sec="4 C03",
    technique="static pass-table extraction over go/ssa (loops and Range-closures), effect/ownership rules (operands read-only, results fresh), counting-closure tables + the C04 map protocol rules",
@@ -87,7 +87,7 @@ CLAIMS = {
    note="Uses the lemma that j=0; j<q*size; j+=size runs q times. ceil(n/size) as arithmetic beyond what the normal forms equate is not decided."),
  "C14": dict(cat="other", sec="4 C14",
    technique="static effect (read-only inputs), origin (fresh results), def-use (callback result used), loop-direction and per-function path tables over go/ssa",
-   text="For the functional helpers the handful of path rows is the definition: early-exit tables (Index*, Contains*, Any, All, maps.KeyOf/ContainsValue/HasKey), Map/MapErr/Filter/Distinct*/Except* rows, Fold/FoldReverse accumulator threading and direction, GroupBy/CountBy bookkeeping, TryGet/SafeGet*/Last/Trim*, maps.Keys/Values/Clear; plus, for all of them, inputs are only read, promised-new results come from make/append-to-fresh on every path, and callback results are used. The loop-direction rule runs over the whole tree.",
+   text="For the functional helpers the handful of path rows is the definition: early-exit tables (Index*, Contains*, Any, All, maps.KeyOf/ContainsValue/HasKey), Map/MapErr/Filter/Distinct*/Except* rows, Fold/FoldReverse accumulator threading and direction, GroupBy/CountBy bookkeeping, TryGet/SafeGet*/Last/Trim*, maps.Keys/Values/Clear; plus, for all of them, inputs are only read, promised-new results come from make/append-to-fresh on every path, and callback results are used. The loop-direction rule runs over the whole tree; the set constructors Except relies on are re-checked with C03's rows.",
    note="Not decided: equality with the definitions for all inputs beyond these tables (for GroupBy/CountBy/Distinct they are necessary bookkeeping conditions)."),
 }
 
